@@ -162,6 +162,9 @@ func (cs *caseState) checkReply(kind, t string, cmd erpc.CallCmd, arg interface{
 		cs.report("sender-buffer-overwritten", kind, fmt.Sprintf("token %q: bytes beyond the body slice passed to the call were modified", t))
 	}
 	res, stat := cmd.Reply()
+	// the documented accessors of a completed call (each waits for Done)
+	_ = cmd.CostTime()
+	_ = cmd.InputBodyCodec()
 	if !stat.OK() {
 		atomic.AddInt64(&cs.callsFailed, 1)
 		cs.mu.Lock()
